@@ -162,10 +162,19 @@ def run(ck, F):
         if want is None:
             continue
         if want[0] == 'this#copy':
-            okv = got in ('this',)        # the copy made before the step aliases the old value
+            # the copy made before the step: the object itself (a copy aliases its source here), or a fresh iterator holding the
+            # values the members had before the step
+            vv = value_of(v, st)
+            okv = got in ('this',) or (isinstance(vv, tuple) and vv[:1] == ('val',) and
+                                       dict(vv[2]) == {'index': ('fld', THIS, 'index'), 'seq': ('fld', THIS, 'seq')})
         else:
             okv = got == want[0] or (name in ('operator*', 'operator->') and got.replace('&*', '&') == want[0].replace('&*', '&'))
-        ck.check(R, inst, okv and eff == want[1], f'{f["id"]}: yields `{got}`, index becomes `{eff}`; defined as `{want[0]}` / `{want[1]}`',
+        okeff = eff == want[1]
+        if not okeff and name in ('operator++', 'operator--') and idx_after is not None:
+            # the same value however the step is written (x + 1, x - -1, 1 + x)
+            from symex import linear_form
+            okeff = linear_form(idx_after) == {('fld', THIS, 'index'): 1, None: 1 if name == 'operator++' else -1}
+        ck.check(R, inst, okv and okeff, f'{f["id"]}: yields `{got}`, index becomes `{eff}`; defined as `{want[0]}` / `{want[1]}`',
                  loc=f['loc'], fn=f['id'])
 
     # ---- helpers over elements()
